@@ -7,17 +7,6 @@ in terms of it, and step level corollaries of `InputRootSteps`.
 namespace BbRe.Lemmas.InputRoot
 open BbRe.InputRoot
 
-/-- The node a path denotes in the *requested* tree below `n`. -/
-def nodeAt (c : CAS) : Node → Path → Option Node
-  | n, [] => some n
-  | n, x :: rest =>
-    match contents c [] n with
-    | .ok ch =>
-      match lookup ch x with
-      | none => none
-      | some v => nodeAt c v rest
-    | _ => none
-
 /-- Any access through a directory that cannot be loaded fails with `EIO`. -/
 theorem withDir_through_bad (c : CAS) (F : List Dig) (act : Children → Children × Out) :
     ∀ (p q : Path) (n b : Node) (e : Err), nodeAt c n p = some b → contents c [] b = .err e →
@@ -146,129 +135,5 @@ theorem nodeAt_equiv (c : CAS) : ∀ (p : Path) (a b : Node), Equiv c a b →
     · rcases chrel_lookup hc x with ⟨h1, h2⟩ | ⟨ca, cb, h1, h2, hr⟩
       · left; simp [h1, h2]
       · simp only [h1, h2]; exact ih ca cb hr
-
-/-! ### states -/
-
-/-- Same storage, equivalent trees. -/
-def SEquiv (l e : State) : Prop := l.cas = e.cas ∧ Equiv l.cas l.root e.root
-
-theorem SEquiv.refl (s : State) : SEquiv s s := ⟨rfl, Equiv.refl _ _⟩
-
-theorem SEquiv.symm {l e : State} (h : SEquiv l e) : SEquiv e l :=
-  ⟨h.1.symm, h.1 ▸ h.2.symm⟩
-
-theorem SEquiv.trans {a b d : State} (h1 : SEquiv a b) (h2 : SEquiv b d) : SEquiv a d :=
-  ⟨h1.1.trans h2.1, h1.2.trans (h1.1 ▸ h2.2)⟩
-
-theorem step_cas (s : State) (F : List Dig) (op : Op) : (step s F op).1.cas = s.cas := by
-  cases op with
-  | merge d =>
-    simp only [step, merge]
-    split
-    · rfl
-    · split <;> rfl
-  | _ => rfl
-
-theorem run_cas (s : State) (hs : List (List Dig × Op)) : (run s hs).1.cas = s.cas := by
-  induction hs generalizing s with
-  | nil => rfl
-  | cons h rest ih =>
-    obtain ⟨F, op⟩ := h
-    simp only [run]
-    rw [ih, step_cas]
-
-theorem merge_equiv (l e : State) (d : Dig) (h : SEquiv l e) :
-    (merge l [] d).2 = (merge e [] d).2 ∧ SEquiv (merge l [] d).1 (merge e [] d).1 := by
-  obtain ⟨hc, hr⟩ := h
-  simp only [merge, ← hc]
-  cases (fetch l.cas [] d).result with
-  | error err => exact ⟨rfl, hc, hr⟩
-  | ok new =>
-    simp only []
-    have hcon := hr.contents
-    cases hl : contents l.cas [] l.root <;> cases he : contents l.cas [] e.root <;>
-      rw [hl, he] at hcon <;> simp only [ContRel] at hcon
-    · exact ⟨rfl, hc, hr⟩
-    · exact ⟨rfl, hc, hr⟩
-    · have := actMerge_resp l.cas new _ _ hcon
-      exact ⟨this.1, rfl, equiv_dir this.2⟩
-
-theorem step_equiv (l e : State) (op : Op) (h : SEquiv l e) :
-    (step l [] op).2 = (step e [] op).2 ∧ SEquiv (step l [] op).1 (step e [] op).1 := by
-  cases op with
-  | merge d => exact merge_equiv l e d h
-  | lookup p x =>
-    obtain ⟨hc, hr⟩ := h
-    have := withDir_equiv l.cas _ (actOf_resp l.cas (.lookup p x)) p _ _ hr
-    simp only [step, pathOf, ← hc]; exact ⟨this.1, rfl, this.2⟩
-  | readdir p =>
-    obtain ⟨hc, hr⟩ := h
-    have := withDir_equiv l.cas _ (actOf_resp l.cas (.readdir p)) p _ _ hr
-    simp only [step, pathOf, ← hc]; exact ⟨this.1, rfl, this.2⟩
-  | leaf o p x =>
-    obtain ⟨hc, hr⟩ := h
-    have := withDir_equiv l.cas _ (actOf_resp l.cas (.leaf o p x)) p _ _ hr
-    simp only [step, pathOf, ← hc]; exact ⟨this.1, rfl, this.2⟩
-  | remove p x =>
-    obtain ⟨hc, hr⟩ := h
-    have := withDir_equiv l.cas _ (actOf_resp l.cas (.remove p x)) p _ _ hr
-    simp only [step, pathOf, ← hc]; exact ⟨this.1, rfl, this.2⟩
-  | create p x =>
-    obtain ⟨hc, hr⟩ := h
-    have := withDir_equiv l.cas _ (actOf_resp l.cas (.create p x)) p _ _ hr
-    simp only [step, pathOf, ← hc]; exact ⟨this.1, rfl, this.2⟩
-  | mkdir p x =>
-    obtain ⟨hc, hr⟩ := h
-    have := withDir_equiv l.cas _ (actOf_resp l.cas (.mkdir p x)) p _ _ hr
-    simp only [step, pathOf, ← hc]; exact ⟨this.1, rfl, this.2⟩
-
-/-- Output of an operation that a storage fault made fail. -/
-def isFaultOut (o : Out) : Prop := o = .status .eio ∨ o = .mergeErr .unavailable
-
-theorem merge_fault (s : State) (F : List Dig) (d : Dig) :
-    merge s F d = merge s [] d ∨ (isFaultOut (merge s F d).2 ∧ (merge s F d).1 = s) := by
-  simp only [merge]
-  rcases fetch_fault s.cas F d with h | h
-  · rw [h]
-    cases (fetch s.cas [] d).result with
-    | error e => left; rfl
-    | ok new =>
-      simp only []
-      rcases contents_fault s.cas F s.root with h2 | h2
-      · left; rw [h2]
-      · right; rw [h2]; exact ⟨Or.inl rfl, rfl⟩
-  · right; rw [h]; exact ⟨Or.inr rfl, rfl⟩
-
-theorem step_fault (s : State) (F : List Dig) (op : Op) :
-    step s F op = step s [] op ∨ (isFaultOut (step s F op).2 ∧ SEquiv (step s F op).1 s) := by
-  cases op with
-  | merge d =>
-    rcases merge_fault s F d with h | ⟨h1, h2⟩
-    · left; exact h
-    · right; refine ⟨h1, ?_⟩; simp only [step]; rw [h2]; exact SEquiv.refl s
-  | lookup p x =>
-    rcases withDir_fault s.cas F _ _ (actOf_fault s.cas F (.lookup p x)) p s.root with h | ⟨h1, h2⟩
-    · left; simp only [step, pathOf, h]
-    · right; exact ⟨Or.inl h1, rfl, h2⟩
-  | readdir p =>
-    rcases withDir_fault s.cas F _ _ (actOf_fault s.cas F (.readdir p)) p s.root with h | ⟨h1, h2⟩
-    · left; simp only [step, pathOf, h]
-    · right; exact ⟨Or.inl h1, rfl, h2⟩
-  | leaf o p x =>
-    rcases withDir_fault s.cas F _ _ (actOf_fault s.cas F (.leaf o p x)) p s.root with h | ⟨h1, h2⟩
-    · left; simp only [step, pathOf, h]
-    · right; exact ⟨Or.inl h1, rfl, h2⟩
-  | remove p x =>
-    rcases withDir_fault s.cas F _ _ (actOf_fault s.cas F (.remove p x)) p s.root with h | ⟨h1, h2⟩
-    · left; simp only [step, pathOf, h]
-    · right; exact ⟨Or.inl h1, rfl, h2⟩
-  | create p x =>
-    rcases withDir_fault s.cas F _ _ (actOf_fault s.cas F (.create p x)) p s.root with h | ⟨h1, h2⟩
-    · left; simp only [step, pathOf, h]
-    · right; exact ⟨Or.inl h1, rfl, h2⟩
-  | mkdir p x =>
-    rcases withDir_fault s.cas F _ _ (actOf_fault s.cas F (.mkdir p x)) p s.root with h | ⟨h1, h2⟩
-    · left; simp only [step, pathOf, h]
-    · right; exact ⟨Or.inl h1, rfl, h2⟩
 
 end BbRe.Lemmas.InputRoot
